@@ -38,6 +38,7 @@ def main():
     ap.add_argument("--tier", default="quick")
     ap.add_argument("--tests", action="store_true")
     ap.add_argument("--import", dest="imp", action="store_true")
+    ap.add_argument("--update", action="store_true", help="refresh verif_result of an already imported seed (confirmation is not repeated)")
     a = ap.parse_args()
     seed = os.path.abspath(a.seed)
     name = os.path.basename(seed)
@@ -50,8 +51,16 @@ def main():
     sh(f"git -C /repo worktree remove --force {wt}")
     shutil.rmtree(wt, ignore_errors=True)
     shutil.rmtree(outdir, ignore_errors=True)
+    base = meta.get("base_commit") or "HEAD"
     r = sh(f"git -C /repo worktree add --detach {wt} HEAD")
-    res = {"seed": name, "property": meta["property"], "checks": {}}
+    if r.returncode == 0 and base != "HEAD" and sh(f"git -C {wt} apply --check {seed}/patch.diff").returncode != 0:
+        # the change was written against an earlier commit and no longer applies to HEAD (a later fix touched the same lines)
+        sh(f"git -C /repo worktree remove --force {wt}")
+        r = sh(f"git -C /repo worktree add --detach {wt} {base}")
+        res_base = base
+    else:
+        res_base = sh("git -C /repo rev-parse --short HEAD").stdout.strip()
+    res = {"seed": name, "property": meta["property"], "checks": {}, "evaluated_on": res_base}
     if r.returncode != 0:
         res["error"] = "worktree: " + r.stderr[-200:]
         print(json.dumps(res)); return 2
@@ -93,6 +102,12 @@ def main():
                               "pinned test suite on the patched worktree: all baseline tests pass; checks/check.py <property> --tier quick with "
                               "HED_REPO=<worktree>; worktree removed"]
         json.dump(meta, open(os.path.join(dst, "meta.json"), "w"), indent=1)
+    if a.update:
+        old = meta.get("verif_result", {})
+        res["confirmed"] = old.get("confirmed", res["confirmed"])
+        res["tests"] = old.get("tests")
+        meta["verif_result"] = res
+        json.dump(meta, open(os.path.join(seed, "meta.json"), "w"), indent=1)
     print(json.dumps(res))
     return 0
 
